@@ -305,6 +305,11 @@ class Property(Entity):
         Suitable when new data is nested or original data is long.
         """
         vtype = self._check_new_value_types(data)
+        if not isinstance(data, (Sequence, Iterable)) or isinstance(data, str):
+            # a single value is converted as the element of a list, like the
+            # values setter does: numpy converts a bare numpy integer outside
+            # int64 by wrapping it around instead of raising OverflowError
+            data = [data]
 
         arr = np.array(data, dtype=vtype).flatten('C')
         dataset = self._h5dataset
